@@ -3,7 +3,7 @@ truncation / extension / single-bit corruption under CRC / dangling, backward, s
 import base64
 
 from ..gen import cells as G
-from ..translate import bocheader
+from ..translate import bocheader, boccells
 
 SPEC = dict(
     manifest=dict(
@@ -47,7 +47,7 @@ SPEC = dict(
         technique='Lean 4 proof; header parser and first part of the cell reader regenerated from the source on every run and proved equal to the hand model for all inputs; '
                   'rest: hand model + differential correspondence with the library',
     ),
-    translators=[('deserialize.py deserialize_boc_header + first part of deserialize_cell (+utils.bytes_to_uint, magics)->Generated/BocHeader.lean', bocheader.regenerate)],
+    translators=[('deserialize.py deserialize_boc_header, deserialize_cell, deserialize (+utils.bytes_to_uint, magics)->Generated/BocHeader.lean, BocCells.lean', boccells.regenerate)],
     design_ref='DESIGN.md §6 C05',
     rule='DAGs (ordinary with sharing, exotic trees with pruned branches / Merkle cells / library cells, chains, 255..257-cell bags, cell data of '
          '255/256 bytes total) x freedoms drawn from the seed (magic, size min..4, off min..8, idx, crc, cache bits + per-cell flag, per-cell '
@@ -667,6 +667,78 @@ def cell_records(rng):
     return [(d, sz) for _, d, sz in bocheader.cell_cases(rng)]
 
 
+def cell_grid(rng):
+    """Conforming bags that exercise the SECOND half of deserialize_cell and the loops of deserialize: every data length around
+    the byte boundaries with every kind of tail, exotic type bytes, 0-4 references of every width, several roots, shared and
+    unreferenced cells, every forward order of a small DAG.  -> [(tag, bytes, oracle(ctx), [(record bytes, size)])]"""
+    out = []
+
+    def add(tag, nodes, order, roots, size, off=2, magic='g', idx=False, crc=False, store=()):
+        spec = G.spec_dag(nodes)
+        recs = listing(nodes, spec, order)
+        fr = dict(magic=magic, size=size, off=off, idx=idx, crc=crc, cache=False, store=list(store), cflags=[])
+        case = dict(nodes=nodes, order=order, roots=roots, recs=recs, rpos=[order.index(r) for r in roots], fr=fr)
+        data = py_encode(recs, case['rpos'], fr)
+        raw = [(enc_record(r, size, fr['store'][k] if k < len(fr['store']) else False), size) for k, r in enumerate(recs)]
+        out.append((tag, data, lambda ctx, case=case, spec=spec, tag=tag: check_accept(ctx, case, spec, tag, use_lean_encoder=False), raw))
+
+    for n in list(range(0, 26)) + [63, 64, 65, 1015, 1016, 1017, 1018, 1019, 1020, 1021, 1022, 1023]:
+        pats = {'0' * n, '1' * n, G.rand_bits(rng, n), ('01' * n)[:n], ('10' * n)[:n], '1' * max(0, n - 1) + '0' * min(1, n),
+                '0' * max(0, n - 1) + '1' * min(1, n), '1' + '0' * max(0, n - 1) if n else ''}
+        for k, bits in enumerate(sorted(pats)):
+            add(f'src-bits{n}-{k}', [(G.ORD, bits, ())], [0], [0], 1, magic='gic'[(n + k) % 3])
+    leaves = [(G.ORD, format(k, '05b'), ()) for k in range(4)]
+    for k in range(1, 5):
+        for size in (1, 2, 3, 4):
+            nodes = leaves + [(G.ORD, G.rand_bits(rng, 3 * k), tuple(range(k)))]
+            add(f'src-refs{k}-size{size}', nodes, [4, 3, 2, 1, 0], [4], size, off=1 + size % 3, idx=bool(k % 2), crc=bool(size % 2))
+            add(f'src-refs{k}-size{size}-rev', nodes, [4, 0, 1, 2, 3], [4], size)
+    # shared children, several roots, an unreferenced cell, a root that is also a child
+    nodes = [(G.ORD, '1', ()), (G.ORD, '01', (0, 0)), (G.ORD, '001', (1, 0)), (G.ORD, '0001', ())]
+    for order in ([2, 1, 0, 3], [3, 2, 1, 0], [2, 3, 1, 0], [2, 1, 3, 0]):
+        for roots in ([2], [2, 3], [3, 2], [2, 1], [1, 2, 0], [0], [2, 2]):
+            add(f'src-dag-{"".join(map(str, order))}-{"".join(map(str, roots))}', nodes, order, roots, 1)
+    # exotic cells: library cell, pruned branches of every mask under ordinary parents, Merkle proofs / updates
+    add('src-lib', [(G.LIB, G.bytes_to_bits(bytes([2]) + rng.randbytes(32)), ())], [0], [0], 1)
+    add('src-lib-parent', [(G.LIB, G.bytes_to_bits(bytes([2]) + rng.randbytes(32)), ()), (G.ORD, '1', (0,))], [1, 0], [1], 2)
+    for mask in range(1, 8):
+        k = G.popcount(mask)
+        nodes = [(G.PRUNED, G.pruned_bits(mask, [rng.randbytes(32) for _ in range(k)], [rng.randrange(1000) for _ in range(k)]), ()),
+                 (G.ORD, G.rand_bits(rng, mask), (0,))]
+        add(f'src-pruned{mask}', nodes, [1, 0], [1], 1 + mask % 2, store=[bool(mask & 1), bool(mask & 2)])
+    for t in range(12):
+        db = G.DagBuilder()
+        top = G.gen_exotic_tree(rng, db, rng.choice([0, 1, 1, 2]), rng.randrange(2, 7))
+        if db.ok(top):
+            members = sorted(reachable(db.nodes, [top]))
+            add(f'src-exotic{t}', db.nodes, random_order(rng, db.nodes, set(members), first=top), [top], 1 + t % 2, magic='gic'[t % 3])
+    return out
+
+
+def src_search_cells(ctx):
+    """A c05_src_deserialize_cell / c05_src_deserialize obligation broke: evaluate, in Lean, the regenerated cell reader against
+    the hand model on the records of conforming boundary bags and on raw boundary records; judge the bags that contain a
+    differing record first, then all of them."""
+    grid = cell_grid(ctx.rng)
+    recs = []
+    for _, _, _, raw in grid:
+        for r in raw:
+            if r not in recs:
+                recs.append(r)
+    extra = [(d, sz) for _, d, sz in boccells.cell_cases(ctx.rng)][:600]
+    differing = set(boccells.diff_cells(ctx, recs + [r for r in extra if r not in recs]))
+    ctx.count('src-search-cell-grid', len(grid))
+    ctx.count('src-search-whole-cell-records-differing', len(differing))
+    first = [t for t in grid if any(r in differing for r in t[3])]
+    rest = [t for t in grid if not any(r in differing for r in t[3])]
+    for tag, d, oracle, _ in first + rest:
+        ctx.case(('src', d), nontrivial=False)
+        oracle(ctx)
+        if len(ctx.failures) >= 3:
+            break
+    return bool(ctx.failures)
+
+
 def src_search(ctx):
     """A c05_src_* obligation broke: evaluate, in Lean, the regenerated header parser against the hand model on boundary
     bags and their corruptions; judge the differing inputs first (conformance / rejection oracle), then the whole grid."""
@@ -695,7 +767,7 @@ def src_search(ctx):
 
 def run(ctx):
     rng = ctx.rng
-    if ctx.search and src_search(ctx):
+    if ctx.search and (src_search_cells(ctx) or src_search(ctx)):
         return
     hand_cases(ctx)
 
